@@ -26,9 +26,21 @@ def main():
     out = []
     n = collections.Counter(r["outcome"] for r in rs)
     compiled = sum(v for k, v in n.items() if k != "does-not-compile")
+    late = [r for r in rs if r["outcome"] == "caught" and r.get("verified") is True]
+    stale = [r for r in rs if isinstance(r.get("verified"), str)]
     out.append(f"{len(rs)} mutants ({n.get('does-not-compile', 0)} do not compile; of the {compiled} that do: "
-               f"{n.get('caught', 0)} caught by a registered quick check, {n.get('killed-by-repo-suite-only', 0)} killed by the repository's own suite only, "
-               f"{n.get('survived', 0)} survived both).\n")
+               f"{n.get('caught', 0)} caught by a registered quick check"
+               + (f" - {len(late)} of them only by the harness as strengthened after the sweep (re-run by `--verify-survivors`)" if late else "")
+               + f", {n.get('killed-by-repo-suite-only', 0)} killed by the repository's own suite only, "
+               f"{n.get('survived', 0)} survived both"
+               + (f"; {len(stale)} survivors could not be re-run because a later repair rewrote their line" if stale else "")
+               + ").\n")
+    if late:
+        out.append("Caught only after the strengthenings:\n")
+        for r in late:
+            after = r["after"] if r["after"] else "(line removed)"
+            out.append(f"* `{r['file']}:{r['line']}` {r['op']}: `{r['before'][:100]}` → `{after[:100]}` — now {r['caught_by']} `{r.get('signature', '')}`")
+        out.append("")
     by = collections.Counter(r.get("caught_by") for r in rs if r["outcome"] == "caught")
     out.append("| caught by | " + " | ".join(k for k, _ in sorted(by.items())) + " |")
     out.append("|---|" + "---|" * len(by))
